@@ -785,3 +785,46 @@ vh!(c06_vfs_rename_new, 8, c06_vfs_op(6));
 vh!(c06_vfs_link, 8, c06_vfs_op(7));
 vh!(c06_vfs_create, 8, c06_vfs_op(8));
 vh!(c06_vfs_lookup, 8, c06_vfs_op(9));
+
+/// A mount on the VFS root and a two-directory operation naming the root: the root resolves to
+/// the mounted backend BEFORE the same-mount comparison.  `other`: 0 = an inode of the root-mounted
+/// backend (same mount: must be delivered, with the backend's root inode), 1 = an inode of backend
+/// B (refused), 2 = a pseudo-fs directory inode (refused: it is not part of the mounted backend).
+pub fn c07_root_mount_two_dirs(is_link: bool, other: u8, root_first: bool) {
+    let mut cfg = plain_cfg();
+    cfg.root_mount = true;
+    let vfs = mk_vfs(cfg);
+    unsafe {
+        B_ENTRY = Some(Entry::default());
+        B_ERR = 0;
+    }
+    reset_blog();
+    let ctx = Context { uid: 1, gid: 2, pid: 3 };
+    let root = VfsInode::new(0, ROOT_ID);
+    let (o, obits) = match other {
+        0 => any_inode_at(IDX_A),
+        1 => any_inode_at(IDX_B),
+        _ => (VfsInode::new(0, 2), 2),
+    };
+    let (d1, d2) = if root_first { (root, o) } else { (o, root) };
+    let err = if is_link {
+        vfs.link(&ctx, d1, d2, name_x()).err().and_then(|e| e.raw_os_error())
+    } else {
+        vfs.rename(&ctx, d1, name_x(), d2, name_x(), 0).err().and_then(|e| e.raw_os_error())
+    };
+    unsafe {
+        if other == 0 {
+            assert!(err.is_none() && BLOG.calls == 1 && BLOG.who == IDX_A, "[C07] the VFS root with a root mount belongs to the mounted backend: same-mount operation is delivered");
+            let (w1, w2) = if root_first { (1, obits) } else { (obits, 1) };
+            assert!(BLOG.ino == w1 && BLOG.ino2 == w2, "[C07] delivered with the backend's own inode numbers (root = the backend's root inode)");
+        } else {
+            assert!(BLOG.calls == 0 && err == Some(libc::EINVAL), "[C07] an operation spanning the root mount and another filesystem is refused before any backend");
+        }
+    }
+    kani::cover!(true, "reached");
+    std::mem::forget(vfs);
+}
+vh!(c07_rootmnt_rename_same, 8, c07_root_mount_two_dirs(false, 0, true));
+vh!(c07_rootmnt_rename_other_mount, 8, c07_root_mount_two_dirs(false, 1, true));
+vh!(c07_rootmnt_rename_pseudo_dir, 8, c07_root_mount_two_dirs(false, 2, true));
+vh!(c07_rootmnt_link_same_rev, 8, c07_root_mount_two_dirs(true, 0, false));
